@@ -62,6 +62,56 @@ func withCancelOrigin(v ssa.Value) *ssa.Call {
 	return nil
 }
 
+// origin is a value that may be the current content of a cell: stored by `store`, or (store == nil) handed directly
+// as an argument to the function whose parameter the cell spills.
+type origin struct {
+	val   ssa.Value
+	store *ssa.Store
+}
+
+// originsOf: what may have put the current value into the cell `cell`, followed back through parameters: when the
+// store is of a parameter of the enclosing function (the producer body extracted into a method and started with
+// `go st.produce(ctx, …)`), the search continues with the argument at every call, go or defer site of that function.
+func originsOf(p *Program, cell ssa.Value, depth int) []origin {
+	var out []origin
+	if depth > 4 {
+		return nil
+	}
+	for _, s := range cellStores(cell) {
+		prm, ok := stripConv(s.Val).(*ssa.Parameter)
+		if !ok {
+			out = append(out, origin{s.Val, s})
+			continue
+		}
+		f := prm.Parent()
+		idx := -1
+		for k, fp := range f.Params {
+			if fp == prm {
+				idx = k
+			}
+		}
+		found := false
+		for _, g := range p.ModFuncs() {
+			for _, cs := range callsIn(g) {
+				if cs.Common().StaticCallee() != f || idx < 0 || idx >= len(cs.Common().Args) {
+					continue
+				}
+				found = true
+				a := stripConv(cs.Common().Args[idx])
+				if u, ok := a.(*ssa.UnOp); ok && u.Op == token.MUL {
+					out = append(out, originsOf(p, u.X, depth+1)...)
+				} else {
+					out = append(out, origin{a, nil})
+				}
+			}
+		}
+		if !found {
+			out = append(out, origin{s.Val, s})
+		}
+	}
+	return out
+}
+
 func runDrv1(c *Ctx) {
 	p := c.P
 	n := 0
@@ -112,9 +162,10 @@ func runDrv1(c *Ctx) {
 				}
 				// the context cell holds the context derived by the WithCancel whose cancel is stored in Rows.cancel
 				var wc *ssa.Call
-				for _, s := range cellStores(ctxCell) {
-					if o := withCancelOrigin(s.Val); o != nil {
-						wc = o
+				origins := originsOf(p, ctxCell, 0)
+				for _, o := range origins {
+					if w := withCancelOrigin(o.val); w != nil {
+						wc = w
 					}
 				}
 				if wc == nil {
@@ -133,16 +184,22 @@ func runDrv1(c *Ctx) {
 				}
 				c.Check(stored, key, x.Pos(), "the send is guarded by <-ctx.Done() of the WithCancel context whose cancel function is stored in Rows.cancel")
 				// the store of the derived ctx into the cell precedes the go statement
-				for _, s := range cellStores(ctxCell) {
-					if withCancelOrigin(s.Val) == wc {
-						okOrder := false
-						for _, in3 := range instrs(s.Parent()) {
-							if g, ok := in3.(*ssa.Go); ok && instrDominates(s, g) {
-								okOrder = true
-							}
-						}
-						c.Check(okOrder, key+" ctx-before-go", s.Pos(), "the cancellable context is in place before the producer starts")
+				for _, o := range origins {
+					if withCancelOrigin(o.val) != wc {
+						continue
 					}
+					if o.store == nil {
+						c.Pass(key+" ctx-before-go", x.Pos(), "the cancellable context is handed to the producer as an argument of the go statement")
+						continue
+					}
+					s := o.store
+					okOrder := false
+					for _, in3 := range instrs(s.Parent()) {
+						if g, ok := in3.(*ssa.Go); ok && instrDominates(s, g) {
+							okOrder = true
+						}
+					}
+					c.Check(okOrder, key+" ctx-before-go", s.Pos(), "the cancellable context is in place before the producer starts")
 				}
 				// the outcome of the select: ctx.Done ⇒ return true (stop), sent ⇒ return false
 				idxV := ssa.Value(nil)
@@ -199,6 +256,13 @@ func runDrv2(c *Ctx) {
 			closes++
 			_, isDefer := cs.(*ssa.Defer)
 			isProducer := false
+			for _, g2 := range p.ModFuncs() {
+				for _, in := range instrs(g2) {
+					if g, ok := in.(*ssa.Go); ok && g.Call.StaticCallee() == fn {
+						isProducer = true // `go st.produce(…)`: the producer body as a method
+					}
+				}
+			}
 			if fn.Parent() != nil {
 				for _, in := range instrs(fn.Parent()) {
 					if g, ok := in.(*ssa.Go); ok {
@@ -541,6 +605,39 @@ func runDrv6(c *Ctx) {
 	}
 }
 
+// throughParam follows v back through a parameter of its function to the argument at that function's only call, go
+// or defer site in the module (the producer body extracted into a method receives table and columns as arguments).
+func throughParam(p *Program, v ssa.Value) ssa.Value {
+	for depth := 0; depth < 4; depth++ {
+		v = resolveCell(stripConv(v))
+		prm, ok := v.(*ssa.Parameter)
+		if !ok {
+			return v
+		}
+		f := prm.Parent()
+		var arg ssa.Value
+		n := 0
+		for _, g := range p.ModFuncs() {
+			for _, cs := range callsIn(g) {
+				if cs.Common().StaticCallee() != f {
+					continue
+				}
+				for k, fp := range f.Params {
+					if fp == prm && k < len(cs.Common().Args) {
+						arg = cs.Common().Args[k]
+						n++
+					}
+				}
+			}
+		}
+		if n != 1 {
+			return v
+		}
+		v = arg
+	}
+	return v
+}
+
 func runDrv7(c *Ctx) {
 	p := c.P
 	qc := c.MustFunc("driver", "(*Statement).QueryContext")
@@ -565,7 +662,7 @@ func runDrv7(c *Ctx) {
 		return
 	}
 	isCols := func(v ssa.Value) bool {
-		v = resolveCell(v)
+		v = throughParam(p, v)
 		call, idx := extractOf(v)
 		return call == exCall && idx == 0
 	}
@@ -584,14 +681,14 @@ func runDrv7(c *Ctx) {
 		args := cs.Common().Args
 		c.Check(isCols(args[3]), "producer: SelectDone columns", cs.Pos(), "SelectDone is asked for exactly the expanded column list, in order (so row values line up with Columns())")
 		// table: sel.Table of the parsed statement
-		tv := resolveCell(args[1])
+		tv := throughParam(p, args[1])
 		okT := false
 		if u, ok := tv.(*ssa.UnOp); ok && fieldName(u.X) == "Table" {
 			okT = true
 		}
 		c.Check(okT, "producer: SelectDone table", cs.Pos(), "SelectDone is asked for the table named in the parsed SELECT")
 		// the handle is the statement's own
-		c.Check(strings.HasSuffix(accessPath(args[0]), ".dbh"), "producer: handle", cs.Pos(), "the scan runs on the statement's own handle (%s)", accessPath(args[0]))
+		c.Check(strings.HasSuffix(accessPath(args[0]), ".dbh") || strings.HasSuffix(accessPath(throughParam(p, args[0])), ".dbh"), "producer: handle", cs.Pos(), "the scan runs on the statement's own handle (%s)", accessPath(args[0]))
 	}
 	// expandSelectColumns: * ⇒ append(cols, allCols...), else append(cols, c)
 	var colsCall *ssa.Call
